@@ -122,7 +122,8 @@ Fixpoint next_token (nfuel : nat) (cfg : bcfg) (layp : option (ctxt -> layres)) 
             if bc_partial cfg && memb STOP exp then
               Some (TOk (mkTok STOP (p_off (cx_pos cx2), 0) (cx_span cx2)), cx2)
             else Some (TErr (cx_pos cx2) exp, cx2) in
-          match layp, t_layout T with
+          (* layout is parsed only if none was parsed since the last shift (layout_ahead is None) *)
+          match (match cx_layout cx1 with None => layp | Some _ => None end), t_layout T with
           | Some lp, Some ls =>
               let cur := cx_state cx1 in
               let '(r, cx2) := lp (mkCtx (cx_pos cx1) (cx_span cx1) (cx_layout cx1) ls) in
@@ -131,7 +132,8 @@ Fixpoint next_token (nfuel : nat) (cfg : bcfg) (layp : option (ctxt -> layres)) 
               match r with
               | Some (Some sl) =>
                   if 0 <? snd sl then
-                    next_token nf cfg layp (mkCtx (cx_pos cx3) (cx_span cx3) (Some sl) cur)
+                    (* layout is parsed at most once before a token: the retry has no layout parser *)
+                    next_token nf cfg None (mkCtx (cx_pos cx3) (cx_span cx3) (Some sl) cur)
                   else fallback cx3
               | _ => fallback cx3
               end
